@@ -1,5 +1,8 @@
 ------------------------------- MODULE MCImpl -------------------------------
 EXTENDS FatImpl
+CntUnknown == {-1}
+CntSmall == {-1, 3, 0}
+CntAll == {-1, 3, 0, 1, 9}      \* unknown, exact (N = 4: the root and three free clusters), stale low, stale, stale high
 \* bound the exploration (never the properties): at most MaxCrashes crashes per behaviour
 VARIABLE ncrash
 MCInit == Init /\ ncrash = 0
